@@ -4,12 +4,14 @@ import CharsetProof.Lemmas.SortPerm
 import CharsetProof.Props.C01
 import CharsetProof.Props.C01b
 import CharsetProof.Props.C07
+import CharsetProof.Props.Full2
 open Charset
 #print axioms C01_decodes
 #print axioms C01_decodes_small
 #print axioms C01_decodes_current
 #print axioms C01_ascii_fit_partial
 #print axioms C01_ascii_fit_current
+#print axioms C01_ascii_fit_full
 #print axioms asciiLaw_now
 #print axioms asciiTableOk
 #print axioms lazyLaws_now
